@@ -178,7 +178,7 @@ theorem C12_constructor_error_kinds (pattern : Str) (e : CtorErr) (h : construct
 example : formatPattern "%(message:05)".toList (fun a => a.name) = .formatError := by decide
 example : formatPattern "%(message:d)".toList (fun a => a.name) = .formatError := by decide
 example : formatPattern "%(message:2147483648)".toList (fun a => a.name) = .formatError := by decide
-example : parseSpec "2147483647.0".toList = .ok { width := 2147483647, prec := some 0 } := by decide
+example : parseSpec "2147483647.0".toList = .ok { width := 2147483647, prec := some 0 } := rfl
 
 /-- the errors of the constructor model are exactly these kinds on the examples of the malformed stream;
     which error wins is decided by position: the first offending field -/
